@@ -7,8 +7,7 @@ Property theorems only.  Model: the store of `Model/Heap*` (shared person-number
 Dependent.py.  Specification: `Model/AgreeSpec` — WHICH nodes must share WHOSE record, as functions of the tree only.
 
 Every theorem quantifies over ALL stores `h` (hence over all child lists, of any length, and all contents of the
-records) — nothing is bounded.  `plan h p = some acts` restricts to the modelled fragment (`none` = a Dependent inside
-a Phrase, French `quelques` — which raises `TypeError` in the real code: a finding of the harness — and
+records) — nothing is bounded.  `plan h p = some acts` restricts to the modelled fragment (`none` = a Dependent inside a Phrase, and
 `setPengRecursive`). -/
 namespace Pyrealb.C03
 open Pyrealb Pyrealb.Heap Pyrealb.Agree Pyrealb.GetElems
